@@ -58,7 +58,7 @@ CHECKS.update({
             "Real server context (fast / slow / failing / No-Response-suppressed / slow-failing handlers, CON and NON) fed with copies of "
             "four request keys that share IPs and message IDs, timer firings, jumps to EXCHANGE_LIFETIME -/+ 1 ms and ACKs of the "
             "separate response, for three seeds of the server's own MID counter that force collisions with request MIDs; all event "
-            "sequences to depth 4-5 (quick) / 6 (thorough) with dedup on dedup table + piggyback table + timers + counters + model. "
+            "sequences to depth 3-4 (quick) / 5-6 (thorough: 6 away from the message-ID wrap, 5 around it; 4-5 for non-confirmable requests) with dedup on dedup table + piggyback table + timers + counters + model. "
             "Per copy: handler executions, byte-identical repetition of the first ACK (or silence), independence of endpoints, re-processing after expiry.",
             TB + "EXCHANGE_LIFETIME (247 s) is computed from RFC defaults in the model, not read from the library.",
             "DESIGN.md 6/C04"),
@@ -72,7 +72,7 @@ CHECKS.update({
             "DESIGN.md 6/C05"),
     "C06": ("model_checking", E3,
             "Block requests are pushed through Context.render_to_pipe into a Site with recording resources: all sequences to depth 3 "
-            "(quick) / 4-5 (thorough) over Block1 PUT/POST blocks (num 0-2, M, sizes 16/32, full/short/empty payload) from three "
+            "(quick) / 4-5 (thorough; renderings of 0 and 200 bytes to depth 3) over Block1 PUT/POST blocks (num 0-2, M, sizes 16/32, full/short/empty payload) from three "
             "endpoints (two sharing an IP) to /a, /b, /a?q=1, Block2 GETs (num 0-4, SZX 0-2, renderings of 0-200 bytes), plain requests "
             "and clock jumps around 93 s / 186 s, plus long transfers whose total duration exceeds the lifetime; dedup on spool, cache, "
             "recently-accessed sets, timers and model. Response code, echoed option, exact slice, more-flag, handler invocations and "
